@@ -406,4 +406,118 @@ theorem Live.feeFree {e : Env} {U : List (Ver × UItem)} {L : List Nat} (hl : Li
     have := feeSlot_matSlot _ _ (hl.rows i hi idx u hlk)
     rw [this] at hf; cases hf
 
+-- ---------------------------------------------------------------- the dependents closure of `play`
+
+theorem filter_length_lt {α : Type} (l : List α) (p q : α → Bool) (himp : ∀ x, q x = true → p x = true)
+    (hx : ∃ x ∈ l, p x = true ∧ q x = false) : (l.filter q).length < (l.filter p).length := by
+  induction l with
+  | nil => obtain ⟨x, hx, _⟩ := hx; cases hx
+  | cons a r ih =>
+    have hle : (r.filter q).length ≤ (r.filter p).length := by
+      clear ih hx
+      induction r with
+      | nil => simp
+      | cons b t iht =>
+        simp only [List.filter_cons]
+        cases hq : q b
+        · cases hp : p b
+          · simpa using iht
+          · simp only [Bool.false_eq_true, ↓reduceIte, List.length_cons]; omega
+        · simp only [himp b hq, ↓reduceIte, List.length_cons]; omega
+    obtain ⟨x, hxm, hpx, hqx⟩ := hx
+    simp only [List.filter_cons]
+    rcases List.mem_cons.mp hxm with rfl | hxr
+    · simp only [hpx, hqx, ↓reduceIte, Bool.false_eq_true, List.length_cons]; omega
+    · have := ih ⟨x, hxr, hpx, hqx⟩
+      cases hq : q a
+      · cases hp : p a
+        · simpa using this
+        · simp only [Bool.false_eq_true, ↓reduceIte, List.length_cons]; omega
+      · simp only [himp a hq, ↓reduceIte, List.length_cons]; omega
+
+/-- one round of the closure: the pending transactions outside `set` that depend on a member of `set` -/
+def closureMore (e : Env) (pool : List Nat) (set : List Nat) : List Nat :=
+  pool.filter (fun c => !set.contains c && set.any (fun p => dependsOn e pool c p))
+
+theorem closure_succ (e : Env) (pool : List Nat) (fuel : Nat) (set : List Nat) :
+    closure e pool (fuel + 1) set =
+      if (closureMore e pool set).isEmpty then set else closure e pool fuel (set ++ closureMore e pool set) := rfl
+
+/-- a property that holds for the seeds and is inherited by dependents holds for the whole closure -/
+theorem closure_induct (e : Env) (pool : List Nat) (P : Nat → Prop) (fuel : Nat) (set : List Nat)
+    (hset : ∀ x ∈ set, P x)
+    (hstep : ∀ c ∈ pool, ∀ p, P p → dependsOn e pool c p = true → P c) :
+    ∀ x ∈ closure e pool fuel set, P x := by
+  induction fuel generalizing set with
+  | zero => exact hset
+  | succ n ih =>
+    rw [closure_succ]
+    split
+    · exact hset
+    · apply ih
+      intro x hx
+      rcases List.mem_append.mp hx with h | h
+      · exact hset x h
+      · unfold closureMore at h
+        simp only [List.mem_filter, Bool.and_eq_true, List.any_eq_true] at h
+        obtain ⟨hxp, _, p, hp, hd⟩ := h
+        exact hstep x hxp p (hset p hp) hd
+
+theorem closure_mono (e : Env) (pool : List Nat) (fuel : Nat) (set : List Nat) :
+    ∀ x ∈ set, x ∈ closure e pool fuel set := by
+  induction fuel generalizing set with
+  | zero => intro x hx; exact hx
+  | succ n ih =>
+    intro x hx
+    rw [closure_succ]
+    split
+    · exact hx
+    · exact ih _ x (List.mem_append_left _ hx)
+
+/-- **the closure is closed** when the fuel covers the pending transactions still outside the set (fuel = pool size
+always does): every pending dependent of a member is a member -/
+theorem closure_closed (e : Env) (pool : List Nat) (fuel : Nat) (set : List Nat)
+    (hfuel : (pool.filter (fun c => !set.contains c)).length ≤ fuel) :
+    ∀ p ∈ closure e pool fuel set, ∀ c ∈ pool, dependsOn e pool c p = true → c ∈ closure e pool fuel set := by
+  induction fuel generalizing set with
+  | zero =>
+    intro p _ c hc _
+    have hnil : pool.filter (fun c => !set.contains c) = [] := by
+      apply List.eq_nil_of_length_eq_zero; omega
+    have := List.filter_eq_nil_iff.mp hnil c hc
+    show c ∈ set
+    simpa using this
+  | succ n ih =>
+    rw [closure_succ]
+    split
+    · rename_i hemp
+      intro p hp c hc hd
+      by_cases hcs : c ∈ set
+      · exact hcs
+      · exfalso
+        have : c ∈ closureMore e pool set := by
+          unfold closureMore
+          simp only [List.mem_filter, Bool.and_eq_true, List.any_eq_true]
+          exact ⟨hc, by simpa using hcs, p, hp, hd⟩
+        have hnil : closureMore e pool set = [] := by simpa using hemp
+        rw [hnil] at this
+        cases this
+    · rename_i hemp
+      apply ih
+      have hne : closureMore e pool set ≠ [] := by simpa using hemp
+      obtain ⟨x, hx⟩ := List.exists_mem_of_ne_nil _ hne
+      have hx' := hx
+      unfold closureMore at hx'
+      simp only [List.mem_filter, Bool.and_eq_true] at hx'
+      have hlt := filter_length_lt pool (fun c => !set.contains c) (fun c => !(set ++ closureMore e pool set).contains c)
+        (fun y hy => by
+          simp only [List.contains_eq_mem, List.mem_append, Bool.not_eq_eq_eq_not, Bool.not_true,
+            decide_eq_false_iff_not, not_or] at hy ⊢
+          exact hy.1)
+        ⟨x, hx'.1, hx'.2.1, by
+          simp only [List.contains_eq_mem, List.mem_append, Bool.not_eq_eq_eq_not, Bool.not_false,
+            decide_eq_true_eq]
+          exact Or.inr hx⟩
+      omega
+
 end XV.Chain
